@@ -2,7 +2,7 @@ import ShmVerif.Proof.LBWrite
 /-!
   C06 — a stream is a faithful byte pipe whatever the write and read granularity.
 
-  PARTIAL proof (writer half and reader half; the transport between them is not proved). Proved here, for every slice configuration, every position of slice boundaries (including
+  Proved here (writer half, both transports, reader half, and their composition `c06_pipe`), for every slice configuration, every position of slice boundaries (including
   empty slices in the chain), every mix of shared-memory and heap slices and every sequence of sizes:
     * `c06_reader_refines_bytequeue` : any sequence of ReadBytes / Peek / Discard calls (each asking for at most what is
       buffered) returns exactly what `take`/`drop` on the buffered byte sequence return; Peek consumes nothing; `Len` decreases
@@ -12,9 +12,11 @@ import ShmVerif.Proof.LBWrite
       byte sequence (the same `content` the reader half consumes) grows by exactly the written bytes, in order, `Len` by
       their number; slices of other buffers and free slots are never written (`Proof/LBWrite`: allocator invariant
       `Mem.WF`, established by `create_wf` for the state createBufferManager builds).
-  NOT yet proved (covered by the lock-step correspondence and the byte-pipe monitor on the real streams only): Reserve,
-  `done`/`Flush`/`readBufferSlice`/`moveTo` carrying the composed bytes to the peer's buffered sequence on both
-  transports, ReadByte / ReadString / Read.
+    * `transport_shm`, `transport_fb` (`Proof/LBWrite`) : Flush + the peer's moveTo carry the buffered byte sequence to the
+      peer's receive buffer unchanged, through the slot headers (`done` / readBufferSlice / moveChain) or copied into
+      the event; `c06_pipe` composes writer, transport and reader into the statement of the property.
+  NOT proved (covered by the lock-step correspondence and the byte-pipe monitor on the real streams only): Reserve,
+  ReadByte / ReadString / Read, several flushes accumulating in one receive buffer, slices left empty in a chain.
 -/
 namespace Props.C06
 open LB List
@@ -173,5 +175,59 @@ example :
 theorem c06_writer_initial (classes : List (Nat × Nat)) (hpos : ∀ c ∈ classes, 0 < c.1) :
     (Mem.create classes).WF ∧ WBuf (Mem.create classes) {} :=
   ⟨create_wf classes hpos, Or.inl ⟨rfl, rfl⟩⟩
+
+/-! ### the whole pipe: write, flush, deliver, read -/
+
+/-- **A stream is a faithful byte pipe.** Starting from the memory createBufferManager lays out (any size classes), any
+    sequence of WriteBytes / WriteByte calls followed by Flush hands the written bytes to the peer - through shared memory
+    (the chain `done` writes into the slot headers, re-read by the peer's `moveTo`) when every slice could be allocated
+    there, through the connection (payload copied into the event) otherwise - and any enabled sequence of ReadBytes / Peek
+    / Discard calls on the peer returns exactly what a plain byte queue holding the written bytes returns, whatever the
+    write sizes, the read sizes and the slice boundaries. -/
+theorem c06_pipe (classes : List (Nat × Nat)) (hpos : ∀ c ∈ classes, 0 < c.1) (ops : List WriteOp) (rops : List ReadOp)
+    (m' : Mem) (l' : LBuf) (hwr : wimpl (Mem.create classes) {} ops = some (m', l'))
+    (hne : wspec ops ≠ []) (hen : Enabled (wspec ops) rops) :
+    ∃ m1 x' peer' peer'' res, flush m' { send := l' } {} = (m1, x', peer', res) ∧ (res = .shm ∨ res = .fallback) ∧
+      moveTo m1 peer' = some (m1, peer'') ∧
+      ∃ m2 r2 outs, implRun m1 peer''.recv rops = some (m2, r2, outs) ∧ outs = (specRun (wspec ops) rops).2 ∧
+        content m2 r2.sl = (specRun (wspec ops) rops).1 := by
+  obtain ⟨hw0, hb0⟩ := c06_writer_initial classes hpos
+  obtain ⟨m'', l'', e, hc, hl, hw', hb'⟩ := c06_writer_refines_bytequeue ops (Mem.create classes) {} hw0 hb0
+  rw [hwr] at e
+  simp only [Option.some.injEq, Prod.mk.injEq] at e
+  obtain ⟨rfl, rfl⟩ := e
+  have hc' : content m' l'.sl = wspec ops := by simpa [content] using hc
+  have hlen : l'.len ≠ 0 := by
+    have : 0 < (wspec ops).length := length_pos_iff.mpr hne
+    simp only at hl; omega
+  rcases hb' with ⟨_, hsl⟩ | ⟨wi, hi, ht, hnz⟩
+  · rw [hsl] at hc'; exact absurd hc'.symm (by simpa [content] using hne)
+  · -- what the reader half needs, for either transport
+    have fin : ∀ (m1 : Mem) (peer'' : StreamM), content m1 peer''.recv.sl = wspec ops → SlicesWF m1 peer''.recv.sl →
+        peer''.recv.len = (content m1 peer''.recv.sl).length →
+        ∃ m2 r2 outs, implRun m1 peer''.recv rops = some (m2, r2, outs) ∧ outs = (specRun (wspec ops) rops).2 ∧
+          content m2 r2.sl = (specRun (wspec ops) rops).1 := by
+      intro m1 peer'' h1 h2 h3
+      obtain ⟨m2, r2, outs, g1, g2, g3, _, _, _⟩ := c06_reader_refines_bytequeue rops m1 peer''.recv h2 h3 (by rw [h1]; exact hen)
+      exact ⟨m2, r2, outs, g1, by rw [g2, h1], by rw [g3, h1]⟩
+    have hempty : ∀ m1 : Mem, content m1 ({} : StreamM).recv.sl = [] := fun _ => rfl
+    by_cases hf : l'.fromShm = true
+    · obtain ⟨m1, x', peer', peer'', e1, e2, e3, _, e5, e6, _⟩ :=
+        transport_shm m' { send := l' } {} wi hw' hi ht hnz hlen rfl hf rfl
+      refine ⟨m1, x', peer', peer'', .shm, e1, Or.inl rfl, e2, ?_⟩
+      exact fin m1 peer'' (by rw [e3, hempty, nil_append]; exact hc') (e5 (fun _ h => absurd h (by simp))) (e6 rfl)
+    · obtain ⟨m1, x', peer', peer'', e1, e2, e3, _, e5, e6, _, _⟩ :=
+        transport_fb m' { send := l' } {} wi hi ht hlen (Or.inr (by simpa using hf)) rfl
+      refine ⟨m1, x', peer', peer'', .fallback, e1, Or.inr rfl, e2, ?_⟩
+      exact fin m1 peer'' (by rw [e3, hempty, nil_append]; exact hc') (e5 (fun _ h => absurd h (by simp))) (e6 rfl)
+
+-- non-vacuity, shared-memory transport: three writes across two size classes, flushed, read back in other sizes
+example :
+    let m := Mem.create [(4, 3), (8, 3)]
+    (wimpl m {} [.bytes [1, 2, 3], .byte 4, .bytes [5, 6, 7, 8, 9, 10]]).map (fun (m', l') =>
+      let (m1, _, peer', res) := flush m' { send := l' } {}
+      (res, (moveTo m1 peer').map (fun (m2, p) => (implRun m2 p.recv [.peek 2, .readBytes 7, .discard 1, .readBytes 2]).map (·.2.2)))) =
+    some (.shm, some (some [[1, 2], [1, 2, 3, 4, 5, 6, 7], [], [9, 10]])) := by
+  decide
 
 end Props.C06
